@@ -234,7 +234,25 @@ Section FindVal.
     | [] => None
     | (k, v) :: r => if str_eqb name (iname k) then Some (f v) else find_val r
     end.
+  (** every field with the given key, in order, mapped through [f] *)
+  Fixpoint filter_vals (fs : list (ident * value)) : list A :=
+    match fs with
+    | [] => []
+    | (k, v) :: r => if str_eqb name (iname k) then f v :: filter_vals r else filter_vals r
+    end.
 End FindVal.
+
+(** expected_type_of_location: a variable given directly for a non-null argument / input field that has a default
+    value is checked against the nullable type (IsVariableUsageAllowed, hasLocationDefaultValue) *)
+Definition loc_type (d : inputvaldef) (v : value) : ty :=
+  match iv_type d, v with
+  | TNonNull inner, VVar _ _ => match iv_default d with Some _ => inner | None => iv_type d end
+  | t, _ => t
+  end.
+
+Definition is_builtin_scalar (name : str) : bool :=
+  str_eqb name str_Boolean || str_eqb name str_Int || str_eqb name str_Float || str_eqb name str_String
+  || str_eqb name str_ID.
 
 Definition has_key (name : str) (fs : list (ident * value)) : bool :=
   existsb (fun kv => str_eqb name (iname (fst kv))) fs.
@@ -272,14 +290,15 @@ Record iostate := mkIo { io_errs : list err; io_res : bool; io_info : list (pos 
 
 (** one round of the loop over the expected fields; [cv] is check_value *)
 Definition io_step (cv : value -> ty -> list err) (fs : list (ident * value)) (st : iostate) (ef : inputvaldef) : iostate :=
-  match find_val (fun fv => cv fv (iv_type ef)) (iname (iv_name ef)) fs with
-  | None =>
+  match filter_vals (fun fv => cv fv (loc_type ef fv)) (iname (iv_name ef)) fs with
+  | [] =>
       if ty_is_nonnull (iv_type ef) && match iv_default ef with None => true | Some _ => false end
       then mkIo (io_errs st) false
              (io_info st ++ [(ipos (iv_name ef), RequiredFieldNotSpecified (iname (iv_name ef)))])
              (io_seen st)
       else st
-  | Some es => mkIo (io_errs st ++ es) (io_res st) (io_info st) (Datatypes.S (io_seen st))
+  | rs => (* every value is checked, even if the field is given more than once; seen_fields += 1 each *)
+      mkIo (io_errs st ++ concat rs) (io_res st) (io_info st) (io_seen st + length rs)
   end.
 
 (** the InputObject arm of is_value_compatible_type_def for an object literal, followed by check_value's
@@ -317,6 +336,20 @@ Section Values.
         if mismatch then [err0 (TypeMismatch (ty_show t)) p] else []
     end.
 
+  (** check_variables_in_value: variables inside a list / object literal that are not defined *)
+  Fixpoint check_variables_in_value (v : value) : list err :=
+    match v with
+    | VVar n p => match get_variable_definition vars n with
+                  | None => [err0 (UnknownVariable n) p]
+                  | Some _ => []
+                  end
+    | VList _ vs => flat_map check_variables_in_value vs
+    | VObject _ fs =>
+        (fix go (fs : list (ident * value)) : list err :=
+           match fs with [] => [] | (_, fv) :: r => check_variables_in_value fv ++ go r end) fs
+    | _ => []
+    end.
+
   (** the Named arm of check_value (is_value_compatible_type_def followed by check_value's own TypeMismatch);
       [cv] is check_value, [t] = TNamed n is the expected type as written *)
   Definition check_named (cv : value -> ty -> list err) (v : value) (t : ty) (n : ident) : list err :=
@@ -325,7 +358,9 @@ Section Values.
     | Some td =>
         let mism (info : list (pos * msg)) := [mkErr (TypeMismatch (ty_show t)) (value_pos v) info] in
         match td with
-        | TDScalar _ _ name _ _ => if scalar_accepts (iname name) v then [] else mism []
+        | TDScalar _ _ name _ _ =>
+            if is_builtin_scalar (iname name) then (if scalar_accepts (iname name) v then [] else mism [])
+            else check_variables_in_value v   (* custom scalar: any literal, but its variables have to be defined *)
         | TDObject _ _ _ _ _ _ _ | TDInterface _ _ _ _ _ _ _ | TDUnion _ _ _ _ _ _ => mism []
         | TDEnum _ _ ename _ vals _ =>
             match v with
@@ -370,15 +405,16 @@ Section Values.
   (** one round of the loop of check_arguments over the argument definitions: (errors, seen_args) *)
   Definition arg_step (argument_pos : pos) (args : list (ident * value)) (st : list err * nat) (ad : inputvaldef)
     : list err * nat :=
-    match find (fun kv => str_eqb (iname (iv_name ad)) (iname (fst kv))) args with
-    | None =>
+    match filter (fun kv => str_eqb (iname (iv_name ad)) (iname (fst kv))) args with
+    | [] =>
         let null_is_allowed :=
           if negb (ty_is_nonnull (iv_type ad)) then true
           else match iv_default ad with Some _ => true | None => false end in
         if null_is_allowed then st
         else (fst st ++ [mkErr (RequiredArgumentNotSpecified (iname (iv_name ad))) argument_pos
                            [(ipos (iv_name ad), DefinitionPos (iname (iv_name ad)))]], snd st)
-    | Some kv => (fst st ++ check_value (snd kv) (iv_type ad), Datatypes.S (snd st))
+    | ms => (* every value is checked, even if the argument is given more than once; seen_args += 1 each *)
+        (fst st ++ flat_map (fun kv => check_value (snd kv) (loc_type ad (snd kv))) ms, snd st + length ms)
     end.
 
   (** check_arguments *)
@@ -431,22 +467,26 @@ Definition doc_frags (D : opdoc) : list fragdef :=
 Definition frag_get (fm : list fragdef) (n : str) : option fragdef :=
   find (fun f => str_eqb (iname (fr_name f)) n) (rev fm).
 
-(** count_selection_set_fields.rs; fuel as for check_selection_set (out of fuel counts 0) *)
-Fixpoint count_fields (fuel : nat) (fm : list fragdef) (seen : list str) (ss : selset) : nat :=
+(** count_selection_set_fields.rs: the distinct response keys (alias or name) of a selection set, through spreads
+    (each fragment once per path) and inline fragments; fuel as for check_selection_set (out of fuel adds nothing) *)
+Fixpoint collect_response_keys (fuel : nat) (fm : list fragdef) (seen : list str) (ss : selset) (keys : list str)
+  : list str :=
   match fuel with
-  | 0 => 0
+  | 0 => keys
   | Datatypes.S f =>
-      fold_left (fun acc sel =>
+      fold_left (fun keys sel =>
         match sel with
-        | SField _ _ _ _ _ => Datatypes.S acc
+        | SField alias name _ _ _ =>
+            let k := match alias with Some a => iname a | None => iname name end in
+            if mem_str k keys then keys else keys ++ [k]
         | SSpread _ name _ =>
-            if mem_str (iname name) seen then acc
+            if mem_str (iname name) seen then keys
             else match frag_get fm (iname name) with
-                 | None => acc
-                 | Some fr => acc + count_fields f fm (seen ++ [iname name]) (fr_sel fr)
+                 | None => keys
+                 | Some fr => collect_response_keys f fm (seen ++ [iname name]) (fr_sel fr) keys
                  end
-        | SInline _ _ _ sub => acc + count_fields f fm seen sub
-        end) (selset_sels ss) 0
+        | SInline _ _ _ sub => collect_response_keys f fm seen sub keys
+        end) (selset_sels ss) keys
   end.
 
 Definition implements (impls : list ident) (n : str) : bool := existsb (fun i => str_eqb (iname i) n) impls.
@@ -626,7 +666,7 @@ Definition check_operation (fuel : nat) (S : tsdoc) (fm : list fragdef) (op : op
       | Some root =>
           check_directives S (op_vars op) (op_location (op_type op)) (op_dirs op)
           ++ match op_vars op with Some vs => check_variables_definition S vs | None => [] end
-          ++ (if optype_eqb (op_type op) Subscription && Nat.ltb 1 (count_fields fuel fm [] (op_sel op))
+          ++ (if optype_eqb (op_type op) Subscription && Nat.ltb 1 (length (collect_response_keys fuel fm [] (op_sel op) []))
               then [err0 SubscriptionMustHaveExactlyOneRootField (op_pos op)] else [])
           ++ check_selection_set fuel S fm (op_vars op) [] root (op_sel op)
       end
@@ -697,8 +737,61 @@ Definition def_depth (d : execdef) : nat :=
 Definition doc_fuel (D : opdoc) : nat :=
   Datatypes.S ((Datatypes.S (length (doc_frags D))) * (fold_right (fun d a => Nat.max (def_depth d) a) 0 (od_defs D))).
 
+(** collect_spread_fragments: the names of the fragments (transitively) spread in a selection set, each pushed once
+    (unknown names too), depth first; every fragment is entered at most once, so [doc_fuel] bounds the nesting
+    (out of fuel adds nothing) *)
+Fixpoint collect_spread_fragments (fuel : nat) (fm : list fragdef) (ss : selset) (acc : list str) : list str :=
+  match fuel with
+  | 0 => acc
+  | Datatypes.S f =>
+      fold_left (fun acc sel =>
+        match sel with
+        | SField _ _ _ _ (Some sub) => collect_spread_fragments f fm sub acc
+        | SField _ _ _ _ None => acc
+        | SSpread _ name _ =>
+            if mem_str (iname name) acc then acc
+            else match frag_get fm (iname name) with
+                 | Some fr => collect_spread_fragments f fm (fr_sel fr) (acc ++ [iname name])
+                 | None => acc ++ [iname name]
+                 end
+        | SInline _ _ _ sub => collect_spread_fragments f fm sub acc
+        end) (selset_sels ss) acc
+  end.
+
+Definition is_unknown_variable (e : err) : bool := match e_msg e with UnknownVariable _ => true | _ => false end.
+
+(** check_unspread_fragment: directives and selection set against the type condition, no variable in scope;
+    UnknownVariable errors are dropped (variables belong to the operations that spread a fragment) *)
+Definition check_unspread_fragment (fuel : nat) (S : tsdoc) (fm : list fragdef) (f : fragdef) : list err :=
+  filter (fun e => negb (is_unknown_variable e))
+    (check_directives S None str_FRAGMENT_DEFINITION (fr_dirs f)
+     ++ match get_type S (iname (fr_cond f)) with
+        | Some t =>
+            match t with
+            | TDObject _ _ _ _ _ _ _ | TDInterface _ _ _ _ _ _ _ | TDUnion _ _ _ _ _ _ =>
+                check_selection_set fuel S fm None [iname (fr_name f)] t (fr_sel f)
+            | _ => []
+            end
+        | None => []
+        end).
+
+(** the pass over the fragment definitions no operation (transitively) spreads, in document order *)
+Fixpoint check_unspread (fuel : nat) (S : tsdoc) (fm : list fragdef) (spread : list str) (defs : list execdef) : list err :=
+  match defs with
+  | [] => []
+  | DFrag f :: r =>
+      if mem_str (iname (fr_name f)) spread then check_unspread fuel S fm spread r
+      else check_unspread_fragment fuel S fm f
+           ++ check_unspread fuel S fm (collect_spread_fragments fuel fm (fr_sel f) (spread ++ [iname (fr_name f)])) r
+  | _ :: r => check_unspread fuel S fm spread r
+  end.
+
+Definition spread_by_operations (fuel : nat) (fm : list fragdef) (defs : list execdef) : list str :=
+  fold_left (fun acc d => match d with DOp o => collect_spread_fragments fuel fm (op_sel o) acc | _ => acc end) defs [].
+
 Definition check_operation_document_fuel (fuel : nat) (S : tsdoc) (D : opdoc) : list err :=
-  check_definitions fuel S (doc_frags D) (length (filter is_op (od_defs D))) [] (od_defs D).
+  check_definitions fuel S (doc_frags D) (length (filter is_op (od_defs D))) [] (od_defs D)
+  ++ check_unspread fuel S (doc_frags D) (spread_by_operations fuel (doc_frags D) (od_defs D)) (od_defs D).
 
 Definition check_operation_document (S : tsdoc) (D : opdoc) : list err :=
   check_operation_document_fuel (doc_fuel D) S D.
